@@ -145,6 +145,19 @@ def KV.beq : KV → KV → Bool
   | _, _ => false
 end
 
+/-- decidable form of "the two updates agree wherever both reach" (hypothesis of `merge_comm`) -/
+def agreeB : KV → KV → Bool
+  | .nil, _ => true
+  | .cons k v1 rest, u2 =>
+    (match u2.lookup k with
+      | none => true
+      | some v2 =>
+        match v1, v2 with
+        | .obj a, .obj b => agreeB a b
+        | .obj _, _ => false
+        | _, .obj _ => false
+        | x, y => J.beq x y) && agreeB rest u2
+
 /-! ### well-formedness: dictionary keys are distinct (Python dictionaries always are) -/
 mutual
 def J.wf : J → Bool
@@ -323,9 +336,16 @@ def validateNames (sim : KV) : Except Rej Unit :=
 def currentVersion : String := "4.0"
 def currentMajor : Nat := 4
 
-def digitsNat? (s : String) : Option Nat :=
-  if s.isEmpty then none
-  else if s.toList.all Char.isDigit then s.toNat? else none
+/-- `str.split(".")` on the characters (structural, so that it reduces in the kernel) -/
+def splitDot : List Char → List Char → List (List Char)
+  | [], cur => [cur.reverse]
+  | c :: cs, cur => if c = '.' then cur.reverse :: splitDot cs [] else splitDot cs (c :: cur)
+
+/-- Python `int(s)` for plain ASCII digit strings (anything else: ValueError = `none`) -/
+def digitsNat? (cs : List Char) : Option Nat :=
+  if cs.isEmpty then none
+  else if cs.all Char.isDigit then some (cs.foldl (fun n c => 10 * n + (c.toNat - '0'.toNat)) 0)
+  else none
 
 /-- Python `str(float)` for the plain decimals the generators use (|x| < 1e16, exponent ≥ -4) -/
 def floatStr (m e : Int) : String :=
@@ -353,7 +373,7 @@ def pyStr : J → String
 
 /-- `check_major_version(version_string, "4")`: -1 / 0 / 1, `none` = ValueError branch (`False`) -/
 def majorCmp (s : String) : Option Int :=
-  match s.splitOn "." with
+  match splitDot s.toList [] with
   | [a, b] =>
     match digitsNat? a, digitsNat? b with
     | some ma, some _ => some (if ma < currentMajor then -1 else if ma = currentMajor then 0 else 1)
@@ -451,57 +471,66 @@ def routeSection (defs : KV) (defFile : String) (slot : String) (st : St) (file 
       | .error e => .error e
       | .ok r => .ok { st with sim := st.sim.setKey slot r }
 
+/-- the simulation-settings branch -/
+def routeSim (st : St) (file : KV) : Except Rej St :=
+  let pre : Except Rej Unit := match file.lookup "programs" with
+    | some v => if pyEmpty v then .ok () else .error .type_error
+    | none => .ok ()
+  match pre with
+  | .error e => .error e
+  | .ok _ =>
+    let ref := (st.sim.erase "virtual_world").erase "outputs"
+    match checkTypes ["programs"] (.obj ref) (.obj file) with
+    | .error e => .error e
+    | .ok _ =>
+      match retainUpdate (.obj st.sim) (.obj file) with
+      | .ok (.obj s) => .ok { st with sim := s }
+      | .ok _ => .error .type_error
+      | .error e => .error e
+
+/-- the programs branch -/
+def routeProgram (defs : KV) (st : St) (file : KV) : Except Rej St :=
+  let df := match file.lookup "default_parameters" with
+    | some v => v
+    | none => .str progDefFile
+  match loadDef defs df with
+  | .error e => .error e
+  | .ok d =>
+    match file.lookup "program_name" with
+    | none => .error .key_error
+    | some _ =>
+      match checkTypes ["methods"] d (.obj file) with
+      | .error e => .error e
+      | .ok _ =>
+        match retainUpdate d (.obj file) with
+        | .error e => .error e
+        | .ok (.obj p) =>
+          match p.lookup "program_name" with
+          | none => .error .key_error
+          | some nm =>
+            match keyOf nm with
+            | none => .error .type_error
+            | some key => .ok { st with programs := st.programs.setKey key (.obj p) }
+        | .ok _ => .error .type_error
+
+/-- the methods branch: the file only enters the method pool -/
+def routeMethod (st : St) (file : KV) : Except Rej St :=
+  match file.lookup "method_name" with
+  | none => .error .key_error
+  | some nm =>
+    match keyOf nm with
+    | none => .error .type_error
+    | some key => .ok { st with pool := st.pool.setKey key (.obj file) }
+
 /-- one iteration of `for new_parameters in new_parameters_list` -/
 def route (defs : KV) (st : St) (file : KV) : Except Rej St :=
   match file.lookup "parameter_level" with
   | none => .error .exit
   | some lvl =>
-    if lvl.isStr "simulation_settings" then
-      let pre : Except Rej Unit := match file.lookup "programs" with
-        | some v => if pyEmpty v then .ok () else .error .type_error
-        | none => .ok ()
-      match pre with
-      | .error e => .error e
-      | .ok _ =>
-        let ref := (st.sim.erase "virtual_world").erase "outputs"
-        match checkTypes ["programs"] (.obj ref) (.obj file) with
-        | .error e => .error e
-        | .ok _ =>
-          match retainUpdate (.obj st.sim) (.obj file) with
-          | .ok (.obj s) => .ok { st with sim := s }
-          | .ok _ => .error .type_error
-          | .error e => .error e
+    if lvl.isStr "simulation_settings" then routeSim st file
     else if lvl.isStr "virtual_world" then routeSection defs vwDefFile "virtual_world" st file
-    else if lvl.isStr "programs" then
-      let df := match file.lookup "default_parameters" with
-        | some v => v
-        | none => .str progDefFile
-      match loadDef defs df with
-      | .error e => .error e
-      | .ok d =>
-        match file.lookup "program_name" with
-        | none => .error .key_error
-        | some _ =>
-          match checkTypes ["methods"] d (.obj file) with
-          | .error e => .error e
-          | .ok _ =>
-            match retainUpdate d (.obj file) with
-            | .error e => .error e
-            | .ok (.obj p) =>
-              match p.lookup "program_name" with
-              | none => .error .key_error
-              | some nm =>
-                match keyOf nm with
-                | none => .error .type_error
-                | some key => .ok { st with programs := st.programs.setKey key (.obj p) }
-            | .ok _ => .error .type_error
-    else if lvl.isStr "methods" then
-      match file.lookup "method_name" with
-      | none => .error .key_error
-      | some nm =>
-        match keyOf nm with
-        | none => .error .type_error
-        | some key => .ok { st with pool := st.pool.setKey key (.obj file) }
+    else if lvl.isStr "programs" then routeProgram defs st file
+    else if lvl.isStr "methods" then routeMethod st file
     else if lvl.isStr "outputs" then routeSection defs outDefFile "outputs" st file
     else .error .exit
 
